@@ -387,3 +387,374 @@ Proof.
   - eexists _, _, _. split; [reflexivity|]. unfold st_ok. tauto.
   - exfalso. destruct (decode_total b) as [H _]. rewrite D in H. discriminate.
 Qed.
+
+(* ---- reading a successful step back stage by stage ----------------------------------------------- *)
+Definition staged_of (st : pstate) (q : pkt) (tcp : bool) (t_ns id : N) (u : upstream) (eo : opts) (rt : routed)
+  : outcome (pkt * DnsCache.cache * list (DnsCache.key * pkt) * list upq) :=
+  match rt with
+  | Refuse kind => Ok (in_error q kind eo, s_cache st, s_store st, [])
+  | ToServer srv =>
+    do x <- cache_stage st q tcp t_ns srv id u;
+    match x with (r, c', store', qs) => Ok (reply_of q r eo, c', store', qs) end
+  end.
+
+Lemma dns_step_inv mac c st t_ns t_s client port local tcp b u id eo q st' out qs :
+  decode b = Ok q ->
+  dns_step mac c st t_ns t_s client port local tcp b u id eo = Ok (st', out, qs) ->
+  exists rt reply c' store' bytes drop bs,
+    front c client port q = Ok rt /\
+    staged_of st q tcp t_ns id u eo rt = Ok (reply, c', store', qs) /\
+    wire_bytes q tcp reply = Ok bytes /\
+    limiter_stage mac c st client local tcp q reply (lenN b) (lenN bytes) t_s = Ok (drop, bs) /\
+    st' = {| s_cache := c'; s_store := store'; s_buckets := bs; s_keys := s_keys st |} /\
+    out = (if drop then None else Some bytes).
+Proof.
+  intros D H. unfold dns_step in H. rewrite D in H.
+  destruct (front c client port q) as [rt| |] eqn:F; cbn [obind] in H; try discriminate.
+  fold (staged_of st q tcp t_ns id u eo rt) in H.
+  destruct (staged_of st q tcp t_ns id u eo rt) as [[[[reply c'] store'] qs']| |] eqn:S; cbn [obind] in H; try discriminate.
+  destruct (wire_bytes q tcp reply) as [bytes| |] eqn:W; cbn [obind] in H; try discriminate.
+  destruct (limiter_stage mac c st client local tcp q reply (lenN b) (lenN bytes) t_s) as [[drop bs]| |] eqn:L;
+    cbn [obind fst snd] in H; try discriminate.
+  inversion H; subst. eexists _, _, _, _, _, _, _. repeat split; eauto.
+Qed.
+
+(* nothing but the limiter's buckets changes, and no upstream query is emitted, when the query is
+   refused before the cache *)
+Lemma refused_step mac c st t_ns t_s client port local tcp b u id eo q st' out qs kind :
+  decode b = Ok q -> front c client port q = Ok (Refuse kind) ->
+  dns_step mac c st t_ns t_s client port local tcp b u id eo = Ok (st', out, qs) ->
+  qs = [] /\ s_cache st' = s_cache st /\ s_store st' = s_store st /\
+  exists bytes, wire_bytes q tcp (in_error q kind eo) = Ok bytes /\ (out = None \/ out = Some bytes) /\
+                (tcp = true -> out = Some bytes).
+Proof.
+  intros D F H. destruct (dns_step_inv _ _ _ _ _ _ _ _ _ _ _ _ _ _ _ _ _ D H)
+    as (rt & reply & c' & store' & bytes & drop & bs & F' & S & W & L & -> & ->).
+  rewrite F in F'. inversion F'; subst rt. cbn [staged_of] in S. inversion S; subst. cbn [s_cache s_store].
+  repeat split; auto. exists bytes. split; [assumption|]. split; [destruct drop; auto|].
+  intros ->. unfold limiter_stage in L. inversion L. reflexivity.
+Qed.
+
+(* an error reply on the wire: strictly well-formed, within the limit, the client's id and
+   question, the error's rcode, no records *)
+Lemma error_on_wire q tcp kind eo bytes :
+  wf_pkt q = true -> wf_opts eo = true -> wire_bytes q tcp (in_error q kind eo) = Ok bytes ->
+  lenN bytes <= N.max (response_size_limit tcp (bufsize q)) 512 /\
+  exists r, strict_decode bytes = Some r /\
+    qid r = qid q /\ qname r = qname q /\ qtype r = qtype q /\ qclass r = qclass q /\ qr r = true /\
+    rcode r = error_rcode kind /\ answer r = [] /\ nameserver r = [].
+Proof.
+  intros WQ WE H. unfold wire_bytes, prepare_to_send, encode_sized in H. rewrite in_error_encoding in H.
+  destruct (encode_sized_t (error0 q kind eo) _) as [[e t]| |] eqn:E; try discriminate. inversion H; subst e.
+  destruct (sized_wellformed _ _ _ _ (error0_wf q kind eo WQ WE) E) as (Hlen & ac & nc & dc & SD & _).
+  split; [exact Hlen|]. eexists. split; [exact SD|].
+  unfold sized_result. cbn [qid qname qtype qclass qr rcode answer nameserver error0].
+  repeat split; try reflexivity; try (destruct (N.to_nat ac); reflexivity); try (destruct (N.to_nat nc); reflexivity).
+  pose proof (error_rcode_small kind). destruct (opt_kept (error0 q kind eo) dc); [reflexivity|].
+  apply N.mod_small. lia.
+Qed.
+
+(* ---- the cache stage, case by case ------------------------------------------------------------------ *)
+Lemma out_query_transports tcp id u :
+  let trs := snd (out_query tcp id u) in
+  trs = [true] \/ trs = [false] \/ trs = [false; true].
+Proof.
+  unfold out_query. destruct tcp; simpl; [auto|].
+  destruct (parse_up (u_udp u)) as [m|e]; simpl; [|auto].
+  destruct ((qid m =? id) && negb (tc m)); simpl; auto.
+Qed.
+
+Definition is_hit (st : pstate) (q : pkt) (t_ns : N) (r : upres) : Prop :=
+  qclass q = 1 /\
+  exists e, DnsCache.lookup (key_of q) (s_cache st) = Some e /\
+    t_ns <= DnsCache.e_birth e + DnsCache.e_life e /\
+    match DnsCache.e_reply e with
+    | DnsCache.ROk r0 =>
+      DnsCache.e_life e = DnsCache.NS * DnsCache.min_ttl r0 /\
+      exists m, store_lookup (key_of q) (s_store st) = Some m /\ abs_reply m = r0 /\ pkt_ok m /\
+        let d := (t_ns - DnsCache.e_birth e) / DnsCache.NS in
+        r = UOk (age_exact d m) /\ d <= DnsCache.min_ttl r0 /\
+        (forall x, In x (answer m ++ nameserver m ++ additional m) -> d <= r_ttl x)
+    | DnsCache.RErr er => r = UErr er
+    end.
+
+Lemma all_rrs_abs_conv m x : In x (answer m ++ nameserver m ++ additional m) ->
+  exists p, In p (DnsCache.all_rrs (abs_reply m)) /\ fst p = r_ttl x.
+Proof.
+  assert (G : forall l i x, In x l -> exists p, In p (number_rrs i l) /\ fst p = r_ttl x).
+  { induction l as [|r l IH]; intros i y H; [destruct H|]. simpl. destruct H as [->|H].
+    - eexists. split; [left; reflexivity | reflexivity].
+    - destruct (IH (i + 1) y H) as (p & ? & ?). exists p. auto. }
+  unfold DnsCache.all_rrs, abs_reply, DnsCache.r_answer, DnsCache.r_ns, DnsCache.r_additional. cbn [fst snd].
+  rewrite !in_app_iff. intros [H|[H|H]]; eapply G in H as (p & ? & ?); exists p; rewrite !in_app_iff; eauto.
+Qed.
+
+Lemma cache_stage_cases st q tcp t_ns srv id u r c' store' qs :
+  DnsCache.cache_ok (s_cache st) -> store_ok (s_cache st) (s_store st) ->
+  cache_stage st q tcp t_ns srv id u = Ok (r, c', store', qs) ->
+  (qs = [] /\ c' = s_cache st /\ store' = s_store st /\ is_hit st q t_ns r)
+  \/
+  (exists qb, encode (outquery id q) = Ok qb /\
+     qs = map (fun tr => (srv, tr, qb)) (snd (out_query tcp id u)) /\
+     r = fst (out_query tcp id u) /\
+     (qclass q <> 1 \/ DnsCache.get_entry (s_cache st) (key_of q) t_ns = None)).
+Proof.
+  intros CO SO H. unfold cache_stage in H. set (o := out_query tcp id u) in *.
+  unfold DnsCache.handle in H.
+  destruct (N.eqb_spec (qclass q) 1) as [QC|QC]; cbn [negb] in H.
+  - destruct (DnsCache.get_entry (s_cache st) (key_of q) t_ns) as [o'|] eqn:G; cbn [fst snd] in H.
+    + left.
+      destruct (Proofs.DnsCache.hit_only_fresh_and_same_key _ _ _ _ CO G) as (e & L & Hin & F & Hlife & Eo).
+      destruct (DnsCache.e_reply e) as [r0|er] eqn:ER.
+      * destruct (Proofs.DnsCache.ttl_exact _ _ _ _ _ _ CO G L ER) as (Eo' & Hall & _ & Hmin).
+        rewrite Eo' in H. destruct (SO _ _ _ L ER) as (m & SL & AB & PM). rewrite SL in H.
+        inversion H; subst. split; [reflexivity|]. split; [reflexivity|]. split; [reflexivity|].
+        split; [assumption|]. exists e. split; [assumption|]. split; [assumption|].
+        rewrite ER. split; [apply Hlife; reflexivity|]. exists m.
+        split; [assumption|]. split; [reflexivity|]. split; [assumption|]. cbv zeta.
+        split; [reflexivity|]. split; [assumption|].
+        intros x Hx. destruct (all_rrs_abs_conv m x Hx) as (p & Hp & <-). apply Hall. assumption.
+      * subst o'. cbn [DnsCache.dec_result] in H. inversion H; subst.
+        split; [reflexivity|]. split; [reflexivity|]. split; [reflexivity|].
+        split; [assumption|]. exists e. rewrite ER. auto.
+    + right. destruct (encode (outquery id q)) as [qb| |]; cbn [obind] in H; try discriminate.
+      inversion H; subst. exists qb. auto.
+  - right. cbn [fst snd] in H. destruct (encode (outquery id q)) as [qb| |]; cbn [obind] in H; try discriminate.
+    inversion H; subst. exists qb. auto.
+Qed.
+
+(* ---- only REFUSED over UDP is ever withheld -------------------------------------------------------- *)
+Lemma limiter_passes mac c st client local tcp q reply in_size out_size t_s drop bs :
+  limiter_stage mac c st client local tcp q reply in_size out_size t_s = Ok (drop, bs) ->
+  tcp = true \/ rcode reply <> 5 -> drop = false /\ bs = s_buckets st.
+Proof.
+  unfold limiter_stage. intros H [->|NR]; [inversion H; auto|].
+  destruct tcp; [inversion H; auto|].
+  destruct (N.eqb_spec (rcode reply) 5); [contradiction|]. cbn [negb] in H. inversion H; auto.
+Qed.
+
+Lemma in_reply_fields q m eo :
+  let r := in_reply q m eo in
+  qid r = qid q /\ qname r = qname q /\ qtype r = qtype q /\ qclass r = qclass q /\ qr r = true /\
+  rcode r = rcode m /\ answer r = answer m /\ nameserver r = nameserver m /\ additional r = additional m.
+Proof. cbv zeta. unfold in_reply. cbn. repeat split; reflexivity. Qed.
+
+(* a relayed reply on the wire: within the limit, strictly well-formed, the client's id and question,
+   the upstream's rcode (low 4 bits when the OPT record had to go), and in every section a prefix of
+   the records handed to the serialiser -- all of them when nothing was dropped (TC clear) *)
+Lemma reply_on_wire q tcp m eo bytes :
+  wf_pkt q = true -> pkt_ok m -> wf_opts eo = true -> wire_bytes q tcp (in_reply q m eo) = Ok bytes ->
+  lenN bytes <= N.max (response_size_limit tcp (bufsize q)) 512 /\
+  exists r ac nc dc t, strict_decode bytes = Some r /\
+    qid r = qid q /\ qname r = qname q /\ qtype r = qtype q /\ qclass r = qclass q /\ qr r = true /\
+    rcode r mod 16 = rcode m mod 16 /\ tc r = (tc m || t) /\
+    answer r = firstn (N.to_nat ac) (answer m) /\ nameserver r = firstn (N.to_nat nc) (nameserver m) /\
+    additional r = firstn (N.to_nat dc) (additional m) /\
+    (t = false -> answer r = answer m /\ nameserver r = nameserver m /\ additional r = additional m /\ rcode r = rcode m).
+Proof.
+  intros WQ [WM LM] WE H. unfold wire_bytes, prepare_to_send, encode_sized in H. rewrite in_reply_encoding in H.
+  destruct (encode_sized_t (reply0 q m eo) _) as [[e t]| |] eqn:E; try discriminate. inversion H; subst e.
+  destruct (sized_wellformed _ _ _ _ (reply0_wf q m eo WQ WM WE LM) E) as (Hlen & ac & nc & dc & SD & _ & _ & _ & Hf & _).
+  split; [exact Hlen|]. exists (sized_result (reply0 q m eo) ac nc dc t), ac, nc, dc, t.
+  split; [exact SD|]. unfold sized_result. cbn [qid qname qtype qclass qr rcode tc answer nameserver additional reply0].
+  do 5 (split; [reflexivity|]).
+  split; [destruct (opt_kept (reply0 q m eo) dc); [reflexivity|]; apply N.mod_mod; lia|].
+  do 4 (split; [reflexivity|]).
+  intros ->. destruct (Hf eq_refl) as (Ea & En & Ed). cbn [answer nameserver additional reply0] in Ea, En, Ed.
+  rewrite Ea, En. rewrite !firstn_all. split; [reflexivity|]. split; [reflexivity|]. split.
+  - apply firstn_all2. rewrite Ed, app_length. lia.
+  - unfold opt_kept. cbn [reply0 edns additional].
+    destruct (Nat.eqb_spec (N.to_nat dc) (length (additional m ++ opt_rr (reply0 q m eo)))); [reflexivity|contradiction].
+Qed.
+
+(* ---- D02: the ACL stands before everything ---------------------------------------------------------- *)
+Definition refused_reply_for (q r : pkt) (rc : N) : Prop :=
+  qid r = qid q /\ qname r = qname q /\ qtype r = qtype q /\ qclass r = qclass q /\ qr r = true /\
+  rcode r = rc /\ answer r = [] /\ nameserver r = [].
+
+Lemma d02_acl mac c st t_ns t_s client port local tcp b u id eo st' out qs :
+  Acl.wf_rules (c_acls c) = true -> Acl.wf_addr client = true ->
+  (~ exists r, Acl.first_match (c_acls c) client r /\ Acl.permits r Acl.OpDns = true) ->
+  bytes_ok b = true -> wf_opts eo = true ->
+  dns_step mac c st t_ns t_s client port local tcp b u id eo = Ok (st', out, qs) ->
+  qs = [] /\ s_cache st' = s_cache st /\ s_store st' = s_store st /\
+  (out = None /\ (tcp = true -> forall q, decode b <> Ok q) \/
+   exists bytes q r, out = Some bytes /\ decode b = Ok q /\ strict_decode bytes = Some r /\ refused_reply_for q r 5).
+Proof.
+  intros WR WA NG HB WE H.
+  destruct (decode b) as [q|e|p] eqn:D.
+  - assert (F : front c client port q = Ok (Refuse 0)).
+    { unfold front. apply (proj2 (Proofs.Acl.dns_gate_spec _ _ WR WA)) in NG. rewrite NG. reflexivity. }
+    destruct (refused_step _ _ _ _ _ _ _ _ _ _ _ _ _ _ _ _ _ _ D F H) as (-> & EC & ES & bytes & W & O & T).
+    split; [reflexivity|]. split; [assumption|]. split; [assumption|].
+    destruct (error_on_wire q tcp 0 eo bytes (decode_wf b q HB D) WE W) as (_ & r & SD & R).
+    destruct O as [->| ->].
+    + destruct tcp; [specialize (T eq_refl); discriminate|]. left. split; [reflexivity | discriminate].
+    + right. exists bytes, q, r. auto.
+  - unfold dns_step in H. rewrite D in H. inversion H; subst.
+    repeat split; auto. left. split; [reflexivity|]. intros _ q. discriminate.
+  - unfold dns_step in H. rewrite D in H. discriminate.
+Qed.
+
+(* ---- D03: routing ------------------------------------------------------------------------------------- *)
+Lemma d03_forge mac c st t_ns t_s client port local tcp b u id eo st' out qs q :
+  decode b = Ok q -> bytes_ok b = true -> wf_opts eo = true ->
+  Acl.dns_gate (c_acls c) client = Acl.DnsPassedOn -> qtype q <> 255 -> port <> 53 ->
+  DnsRoute.decide (c_routes c) (qname q) (rd q) = DnsRoute.RBlocked ->
+  dns_step mac c st t_ns t_s client port local tcp b u id eo = Ok (st', out, qs) ->
+  qs = [] /\ s_cache st' = s_cache st /\ s_store st' = s_store st /\ s_buckets st' = s_buckets st /\
+  exists bytes r, out = Some bytes /\ strict_decode bytes = Some r /\ refused_reply_for q r 3.
+Proof.
+  intros D HB WE G NA NP RB H.
+  assert (F : front c client port q = Ok (Refuse 1)).
+  { unfold front. rewrite G. destruct (N.eqb_spec (qtype q) 255); [contradiction|].
+    destruct (N.eqb_spec port 53); [contradiction|]. rewrite RB. reflexivity. }
+  destruct (dns_step_inv _ _ _ _ _ _ _ _ _ _ _ _ _ _ _ _ _ D H)
+    as (rt & reply & c' & store' & bytes & drop & bs & F' & S & W & L & -> & ->).
+  rewrite F in F'. inversion F'; subst rt. cbn [staged_of] in S. inversion S; subst.
+  destruct (limiter_passes _ _ _ _ _ _ _ _ _ _ _ _ _ L) as [-> ->]; [right; cbn; discriminate|].
+  cbn [s_cache s_store s_buckets]. repeat split; auto.
+  destruct (error_on_wire q tcp 1 eo bytes (decode_wf b q HB D) WE W) as (_ & r & SD & R).
+  exists bytes, r. auto.
+Qed.
+
+Lemma d03_forward mac c st t_ns t_s client port local tcp b u id eo st' out qs q :
+  st_ok t_s st -> decode b = Ok q ->
+  dns_step mac c st t_ns t_s client port local tcp b u id eo = Ok (st', out, qs) -> qs <> [] ->
+  exists srv qb,
+    Acl.dns_gate (c_acls c) client = Acl.DnsPassedOn /\ qtype q <> 255 /\ port <> 53 /\
+    DnsRoute.decide (c_routes c) (qname q) (rd q) = DnsRoute.RForward srv /\ rd q = true /\
+    encode (outquery id q) = Ok qb /\
+    qs = map (fun tr => (srv, tr, qb)) (snd (out_query tcp id u)) /\
+    (qs = [(srv, true, qb)] \/ qs = [(srv, false, qb)] \/ qs = [(srv, false, qb); (srv, true, qb)]) /\
+    (qclass q <> 1 \/ DnsCache.get_entry (s_cache st) (key_of q) t_ns = None).
+Proof.
+  intros (CO & SO & _) D H NE.
+  destruct (dns_step_inv _ _ _ _ _ _ _ _ _ _ _ _ _ _ _ _ _ D H)
+    as (rt & reply & c' & store' & bytes & drop & bs & F & S & W & L & -> & ->).
+  destruct rt as [srv|kind]; [|cbn [staged_of] in S; inversion S; subst; contradiction].
+  unfold front in F.
+  destruct (Acl.dns_gate (c_acls c) client) eqn:G; [discriminate|].
+  destruct (N.eqb_spec (qtype q) 255); [discriminate|]. destruct (N.eqb_spec port 53); [discriminate|].
+  destruct (DnsRoute.decide (c_routes c) (qname q) (rd q)) as [| | |srv'|] eqn:DE; try discriminate.
+  inversion F; subst srv'.
+  cbn [staged_of] in S.
+  destruct (cache_stage st q tcp t_ns srv id u) as [[[[r cc] ss] qq]| |] eqn:CS; cbn [obind] in S; try discriminate.
+  inversion S; subst.
+  destruct (cache_stage_cases _ _ _ _ _ _ _ _ _ _ _ CO SO CS) as [(-> & _)|(qb & EQ & -> & _ & MISS)]; [contradiction|].
+  exists srv, qb. repeat split; auto.
+  - destruct (Proofs.DnsRoute.decide_actions (c_routes c) (qname q) (rd q)) as (_ & FW & _).
+    destruct (FW srv DE) as [RD _]. exact RD.
+  - destruct (out_query_transports tcp id u) as [E|[E|E]]; rewrite E; simpl; auto.
+Qed.
+
+(* ---- D05 / D04: what a relayed reply is made of ---------------------------------------------------------- *)
+Lemma out_query_from_upstream tcp id u m : fst (out_query tcp id u) = UOk m ->
+  exists bs, (u_udp u = UpReply bs \/ u_tcp u = UpReply bs) /\ decode bs = Ok m.
+Proof.
+  assert (P : forall a, parse_up a = UOk m -> exists bs, a = UpReply bs /\ decode bs = Ok m).
+  { intros [bs| |e]; simpl; try discriminate. destruct (decode bs) eqn:E; try discriminate.
+    intro H. inversion H; subst. eauto. }
+  unfold out_query. destruct tcp; simpl.
+  - intro H. destruct (P _ H) as (bs & ? & ?). eauto.
+  - destruct (parse_up (u_udp u)) as [m1|e] eqn:E1; simpl; [|discriminate].
+    destruct ((qid m1 =? id) && negb (tc m1)); simpl; intro H.
+    + inversion H; subst. destruct (P _ E1) as (bs & ? & ?). eauto.
+    + destruct (P _ H) as (bs & ? & ?). eauto.
+Qed.
+
+(* a query that got past the ACL, the screens and the router: it is answered either from the cache
+   (no upstream query, cache and store untouched, entry under the identical key and still within
+   its lifetime) or from the upstream's answer to the query sent for it *)
+Lemma served_step mac c st t_ns t_s client port local tcp b u id eo st' out qs q srv :
+  st_ok t_s st -> decode b = Ok q -> front c client port q = Ok (ToServer srv) ->
+  dns_step mac c st t_ns t_s client port local tcp b u id eo = Ok (st', out, qs) ->
+  exists r bytes,
+    wire_bytes q tcp (reply_of q r eo) = Ok bytes /\ (out = None \/ out = Some bytes) /\
+    ((qs = [] /\ s_cache st' = s_cache st /\ s_store st' = s_store st /\ is_hit st q t_ns r)
+     \/
+     (qs <> [] /\ r = fst (out_query tcp id u) /\
+      (qclass q <> 1 \/ DnsCache.get_entry (s_cache st) (key_of q) t_ns = None))).
+Proof.
+  intros (CO & SO & _) D F H.
+  destruct (dns_step_inv _ _ _ _ _ _ _ _ _ _ _ _ _ _ _ _ _ D H)
+    as (rt & reply & c' & store' & bytes & drop & bs & F' & S & W & L & -> & ->).
+  rewrite F in F'. inversion F'; subst rt. cbn [staged_of] in S.
+  destruct (cache_stage st q tcp t_ns srv id u) as [[[[r cc] ss] qq]| |] eqn:CS; cbn [obind] in S; try discriminate.
+  inversion S; subst. exists r, bytes. split; [assumption|]. split; [destruct drop; auto|].
+  cbn [s_cache s_store].
+  destruct (cache_stage_cases _ _ _ _ _ _ _ _ _ _ _ CO SO CS) as [(-> & -> & -> & HIT)|(qb & EQ & -> & -> & MISS)].
+  - left. auto.
+  - right. split; [|auto]. destruct (out_query_transports tcp id u) as [E|[E|E]]; rewrite E; discriminate.
+Qed.
+
+Lemma aged_zero l : Forall2 (aged 0) l l.
+Proof. induction l; constructor; auto. split; [reflexivity | lia]. Qed.
+
+(* where the packet relayed to the client comes from: the upstream's answer to this very query
+   (age 0), or the packet stored under the identical key, [d] whole seconds old, [d] not beyond
+   its smallest TTL *)
+Definition relayed_from (st : pstate) (q : pkt) (t_ns : N) (u : upstream) (qs : list upq) (m0 : pkt) (d : N) : Prop :=
+  (qs <> [] /\ d = 0 /\ exists bs, (u_udp u = UpReply bs \/ u_tcp u = UpReply bs) /\ decode bs = Ok m0)
+  \/
+  (qs = [] /\ qclass q = 1 /\ store_lookup (key_of q) (s_store st) = Some m0 /\
+   exists e, DnsCache.lookup (key_of q) (s_cache st) = Some e /\
+     DnsCache.e_reply e = DnsCache.ROk (abs_reply m0) /\
+     d = (t_ns - DnsCache.e_birth e) / DnsCache.NS /\
+     t_ns <= DnsCache.e_birth e + DnsCache.NS * DnsCache.min_ttl (abs_reply m0) /\
+     d <= DnsCache.min_ttl (abs_reply m0)).
+
+Lemma d04_faithful mac c st t_ns t_s client port local tcp b u id eo st' bytes qs q srv :
+  st_ok t_s st -> up_ok u -> bytes_ok b = true -> wf_opts eo = true ->
+  decode b = Ok q -> front c client port q = Ok (ToServer srv) ->
+  dns_step mac c st t_ns t_s client port local tcp b u id eo = Ok (st', Some bytes, qs) ->
+  lenN bytes <= N.max (response_size_limit tcp (bufsize q)) 512 /\
+  ((* a resolver error: SERVFAIL *)
+   (exists r, strict_decode bytes = Some r /\ refused_reply_for q r 2)
+   \/
+   (* a relayed reply *)
+   exists m0 d m' r ac nc dc t,
+     relayed_from st q t_ns u qs m0 d /\
+     (forall x, In x (answer m0 ++ nameserver m0 ++ additional m0) -> d <= r_ttl x) /\
+     Forall2 (aged d) (answer m') (answer m0) /\ Forall2 (aged d) (nameserver m') (nameserver m0) /\
+     Forall2 (aged d) (additional m') (additional m0) /\
+     strict_decode bytes = Some r /\
+     qid r = qid q /\ qname r = qname q /\ qtype r = qtype q /\ qclass r = qclass q /\ qr r = true /\
+     rcode r mod 16 = rcode m0 mod 16 /\
+     answer r = firstn (N.to_nat ac) (answer m') /\ nameserver r = firstn (N.to_nat nc) (nameserver m') /\
+     additional r = firstn (N.to_nat dc) (additional m') /\
+     (t = false -> answer r = answer m' /\ nameserver r = nameserver m' /\ additional r = additional m' /\
+                   rcode r = rcode m0)).
+Proof.
+  intros OK HU HB WE D F H. pose proof (decode_wf b q HB D) as WQ.
+  destruct (served_step _ _ _ _ _ _ _ _ _ _ _ _ _ _ _ _ _ _ OK D F H) as (r & bytes' & W & O & CASES).
+  destruct O as [O|O]; [discriminate|]. inversion O; subst bytes'. clear O.
+  destruct r as [m'|er]; cbn [reply_of] in W.
+  - assert (SRC : exists m0 d, relayed_from st q t_ns u qs m0 d /\ pkt_ok m' /\ rcode m' = rcode m0 /\
+              (forall x, In x (answer m0 ++ nameserver m0 ++ additional m0) -> d <= r_ttl x) /\
+              Forall2 (aged d) (answer m') (answer m0) /\ Forall2 (aged d) (nameserver m') (nameserver m0) /\
+              Forall2 (aged d) (additional m') (additional m0)).
+    { destruct CASES as [(-> & _ & _ & QC & e & L & FR & HE)|(NE & ER & MISS)].
+      - destruct (DnsCache.e_reply e) as [r0|er] eqn:ER; [|discriminate].
+        destruct HE as (LIFE & m & SL & AB & PM & EQ & DM & ALL). inversion EQ; subst m'. subst r0.
+        exists m, ((t_ns - DnsCache.e_birth e) / DnsCache.NS).
+        split; [right; split; [reflexivity|]; split; [assumption|]; split; [assumption|];
+                exists e; rewrite <- LIFE; auto|].
+        destruct PM as [WM LM]. split.
+        { split; [apply age_exact_wf; assumption|].
+          destruct (age_exact_sections ((t_ns - DnsCache.e_birth e) / DnsCache.NS) m) as (_ & _ & Ed).
+          rewrite Ed, lenN_map. assumption. }
+        split; [reflexivity|]. split; [assumption|]. apply age_exact_aged. assumption.
+      - symmetry in ER. destruct (out_query_from_upstream _ _ _ _ ER) as (bs & SRC & DB).
+        exists m', 0. split; [left; split; [assumption|]; split; [reflexivity|]; eauto|].
+        split.
+        { pose proof (out_query_ok tcp id u HU) as RO. rewrite ER in RO. exact RO. }
+        split; [reflexivity|]. split; [intros; lia|]. repeat split; apply aged_zero. }
+    destruct SRC as (m0 & d & RF & PM & RC & ALL & A1 & A2 & A3).
+    destruct (reply_on_wire q tcp m' eo bytes WQ PM WE W) as (LEN & r & ac & nc & dc & t & SD & R).
+    split; [assumption|]. right. exists m0, d, m', r, ac, nc, dc, t. rewrite <- RC.
+    destruct R as (R1 & R2 & R3 & R4 & R5 & R6 & _ & R8 & R9 & R10 & R11).
+    repeat split; auto; apply R11; assumption.
+  - destruct (error_on_wire q tcp 4 eo bytes WQ WE W) as (LEN & r & SD & R).
+    split; [assumption|]. left. exists r. auto.
+Qed.
